@@ -173,6 +173,61 @@ theorem parseDeclaration_colon (t r v w1 w2 : Inp) (p : String) (hw1 : WsSeq w1)
   · rw [hr', skipWs_stop _ (hc _)]
   · exact skipWs_absorbs w2 hw2 v
 
+/-! ## rule sets -/
+
+/-- the selector list of a rule set, read from input that has been skipped -/
+def selsOf (rest : Inp) : PRes (List Selector) :=
+  match parseSelector rest with
+  | .ok i1 s => selListGo (i1.length + 1) i1 [s]
+  | .fail => .ok rest []
+
+/-- the block after `{`: declarations, optional semicolons, `}` -/
+def blockOf (sels : List Selector) (r1 : Inp) : PRes RuleSet :=
+  match parseRules (skipWs r1) with
+  | none => .fail
+  | some (r2, decls) =>
+    let r3 := skipWs r2
+    let r3 := eatSemis r3.length r3
+    match skipWs r3 with
+    | '}' :: r4 => .ok (skipWs r4) { selectors := sels, decls := decls }
+    | _ => .fail
+
+/-- what follows the selector list -/
+def bodyOf (sels : List Selector) (rest : Inp) : PRes RuleSet :=
+  match skipWs rest with
+  | '{' :: r1 => blockOf sels r1
+  | _ => .fail
+
+theorem parseRuleset_eq (text : Inp) :
+    parseRuleset text = (match selsOf (skipWs text) with | .fail => .fail | .ok rest sels => bodyOf sels rest) := by
+  unfold parseRuleset selsOf bodyOf blockOf
+  simp only
+  cases h : parseSelector (skipWs text) with
+  | fail => rfl
+  | ok i1 s => simp only; cases selListGo (i1.length + 1) i1 [s] <;> rfl
+
+/-- whitespace and comments in front of a rule set, between the selector list and `{`, and after `{` do not matter -/
+theorem parseRuleset_absorbs (w : Inp) (hw : WsSeq w) (t : Inp) : parseRuleset (w ++ t) = parseRuleset t := by
+  rw [parseRuleset_eq, parseRuleset_eq, skipWs_absorbs w hw]
+
+theorem bodyOf_absorbs (sels : List Selector) (w : Inp) (hw : WsSeq w) (rest : Inp) : bodyOf sels (w ++ rest) = bodyOf sels rest := by
+  unfold bodyOf; rw [skipWs_absorbs w hw]
+
+theorem blockOf_absorbs (sels : List Selector) (w : Inp) (hw : WsSeq w) (r1 : Inp) : blockOf sels (w ++ r1) = blockOf sels r1 := by
+  unfold blockOf; rw [skipWs_absorbs w hw]
+
+/-- `p w1 { w2 decls` is read like `p{decls`: the rule set after a selector list that ends at `rest` -/
+theorem ruleset_open_brace (sels : List Selector) (w1 w2 r : Inp) (h1 : WsSeq w1) (h2 : WsSeq w2) :
+    bodyOf sels (w1 ++ '{' :: (w2 ++ r)) = bodyOf sels ('{' :: r) := by
+  have hb : ∀ x, wsItem ('{' :: x) = none := by
+    intro x
+    have : isWsChar '{' = false := by decide
+    simp [wsItem, this, matchComment]
+  rw [bodyOf_absorbs sels w1 h1]
+  unfold bodyOf
+  rw [skipWs_stop _ (hb _), skipWs_stop _ (hb _)]
+  exact blockOf_absorbs sels w2 h2 r
+
 end Css
 
 end H2T
